@@ -152,8 +152,21 @@ func (ns *normState) unknownCallees() map[types.Object]*inlCallee {
 						}
 					}
 				}
-				if len(names) == 0 || len(ce.Args) < len(names) {
+				if len(ce.Args) < len(names) || len(ce.Args) == 0 {
 					continue
+				}
+				if len(names) == 0 {
+					// Recovery() { return RecoveryWithObserver(nil) }: constants only
+					allConst := true
+					for _, a := range ce.Args {
+						tv, has := pk.TypesInfo.Types[a]
+						if !has || (tv.Value == nil && !tv.IsNil()) {
+							allConst = false
+						}
+					}
+					if !allConst {
+						continue
+					}
 				}
 				same := true
 				for i, n := range names {
@@ -200,9 +213,9 @@ func (ns *normState) unknownCallees() map[types.Object]*inlCallee {
 				}
 				// new exported functions (not methods) are inlined at their call sites inside the module as
 				// well: New() { return NewWithOptions(Options{}) }
-				if ast.IsExported(fd.Name.Name) && fd.Recv != nil {
-					continue
-				}
+				// … and so are new exported methods at their static call sites (a convenience accessor that
+				// existing code now calls); dynamic dispatch is unaffected, and names of module interface
+				// methods are excluded below
 				fn, _ := pk.TypesInfo.Defs[fd.Name].(*types.Func)
 				if fn == nil {
 					continue
@@ -211,7 +224,7 @@ func (ns *normState) unknownCallees() map[types.Object]*inlCallee {
 				if _, known := cset[short+"|"+recvStr(sig)+"|"+fn.Name()]; known {
 					continue
 				}
-				if sig.TypeParams() != nil || sig.RecvTypeParams() != nil {
+				if sig.RecvTypeParams() != nil {
 					continue
 				}
 				if missingSig[short+"|"+recvStr(sig)+"|"+sigStr(sig)] {
@@ -451,6 +464,12 @@ func (ns *normState) localIdentEdits(c *inlCallee, suffix string, from, to token
 		if !ok || id.Name == "_" || id.Pos() < from || id.End() > to {
 			return true
 		}
+		if obj := info.Uses[id]; obj != nil && ns.typeArgs != nil {
+			if txt, isTP := ns.typeArgs[obj]; isTP {
+				eds = append(eds, posEdit{id.Pos(), id.End(), txt})
+				return true
+			}
+		}
 		if obj := info.Defs[id]; obj != nil && isLocal(obj) {
 			eds = append(eds, posEdit{id.Pos(), id.End(), id.Name + suffix})
 		} else if obj := info.Uses[id]; obj != nil && isLocal(obj) {
@@ -556,6 +575,42 @@ func (ns *normState) buildInline(s *inlSite, mode string) (pre string, block str
 	suffix := fmt.Sprintf("_i%d", inlineCounter)
 	info := c.pk.TypesInfo
 	sig := c.sig
+	ns.typeArgs = nil
+	if tps := sig.TypeParams(); tps != nil && tps.Len() > 0 {
+		// a generic helper: the instance's type arguments are written out in place of the parameters
+		var id *ast.Ident
+		switch f := s.call.Fun.(type) {
+		case *ast.Ident:
+			id = f
+		case *ast.IndexExpr:
+			id, _ = f.X.(*ast.Ident)
+		case *ast.IndexListExpr:
+			id, _ = f.X.(*ast.Ident)
+		}
+		if id == nil {
+			return "", "", nil, false
+		}
+		inst, has := s.pk.TypesInfo.Instances[id]
+		if !has || inst.TypeArgs == nil || inst.TypeArgs.Len() != tps.Len() {
+			return "", "", nil, false
+		}
+		ns.typeArgs = map[types.Object]string{}
+		for i := 0; i < tps.Len(); i++ {
+			foreign := false
+			txt := types.TypeString(inst.TypeArgs.At(i), func(p *types.Package) string {
+				if p != s.pk.Types {
+					foreign = true
+				}
+				return ""
+			})
+			if foreign || strings.Contains(txt, "interface{") || strings.Contains(txt, "struct{") {
+				ns.typeArgs = nil
+				return "", "", nil, false
+			}
+			ns.typeArgs[tps.At(i).Obj()] = txt
+		}
+		defer func() { ns.typeArgs = nil }()
+	}
 	var b strings.Builder
 	b.WriteString("{\n")
 
@@ -626,9 +681,9 @@ func (ns *normState) buildInline(s *inlSite, mode string) (pre string, block str
 		return "", "", nil, false
 	}
 	for i, p := range prms {
-		tt := ns.srcText(p.typ.Pos(), p.typ.End())
+		tt := ns.typeSrc(c, p.typ)
 		if ell, isEll := p.typ.(*ast.Ellipsis); isEll {
-			et := ns.srcText(ell.Elt.Pos(), ell.Elt.End())
+			et := ns.typeSrc(c, ell.Elt)
 			tt = "[]" + et
 			if s.call.Ellipsis.IsValid() {
 				if i >= len(args) {
@@ -659,7 +714,7 @@ func (ns *normState) buildInline(s *inlSite, mode string) (pre string, block str
 	var ress []res
 	if c.decl.Type.Results != nil {
 		for _, f := range c.decl.Type.Results.List {
-			tt := ns.srcText(f.Type.Pos(), f.Type.End())
+			tt := ns.typeSrc(c, f.Type)
 			if len(f.Names) == 0 {
 				ress = append(ress, res{nil, tt})
 			}
@@ -912,7 +967,23 @@ func (ns *normState) findTarget(pk *packages.Package, e ast.Expr, callees map[ty
 		if sel, isSel := x.Fun.(*ast.SelectorExpr); isSel && !simpleOperand(sel.X) {
 			// the receiver expression is evaluated before anything else of this call
 			// (whatever findTarget accepts inside the receiver is evaluated before the rest of this call)
-			return ns.findTarget(pk, sel.X, callees, false)
+			if t := ns.findTarget(pk, sel.X, callees, false); t != nil {
+				return t
+			}
+			// the receiver expression runs first: only a callee that merely computes may be hoisted
+			// out of the arguments, in front of it
+			for _, a := range x.Args {
+				if t := ns.findTarget(pk, a, callees, false); t != nil {
+					if c := ns.calleeOf(pk, t, callees); c != nil && c.pure {
+						return t
+					}
+					return nil
+				}
+				if !simpleOperand(a) {
+					return nil
+				}
+			}
+			return nil
 		}
 		if !simpleOperand(x.Fun) {
 			return nil
@@ -1592,4 +1663,22 @@ func (ns *normState) tryAssignCheck(pk *packages.Package, file *ast.File, st, ne
 func plainIndexed(e ast.Expr) bool {
 	ix, ok := e.(*ast.IndexExpr)
 	return ok && plainOperand(ix.X) && plainOperand(ix.Index)
+}
+
+// typeSrc renders a type expression of the callee's declaration, with type parameters of a generic
+// callee replaced by the type arguments of the instance being inlined.
+func (ns *normState) typeSrc(c *inlCallee, e ast.Expr) string {
+	if ns.typeArgs == nil {
+		return ns.srcText(e.Pos(), e.End())
+	}
+	var eds []posEdit
+	ast.Inspect(e, func(n ast.Node) bool {
+		if id, ok := n.(*ast.Ident); ok {
+			if txt, isTP := ns.typeArgs[c.pk.TypesInfo.Uses[id]]; isTP {
+				eds = append(eds, posEdit{id.Pos(), id.End(), txt})
+			}
+		}
+		return true
+	})
+	return ns.render(e.Pos(), e.End(), eds)
 }
